@@ -69,7 +69,9 @@ class P(vlib.Prop):
             "exporter = processError/shouldRetry on every code 0..18 x RetryInfo {absent, nil delay, 15 delays}; real "
             "otlpreceiver on loopback ports (with and without an authenticator extension) + real otlp / otlphttp(proto, "
             "json) exporters with retry and queue disabled: every outcome class x transport, every offered compression x "
-            "signal, 0-item payloads, authenticator accepts/refuses, then random hops; raw HTTP requests over every "
+            "signal, every compression LEVEL x transport with multi-block bodies (160 KiB..1.3 MiB), exports that are inside the "
+            "consumer when Receiver.Shutdown starts and exports after it returned (kind 10), "
+            "0-item payloads, authenticator accepts/refuses, then random hops; raw HTTP requests over every "
             "(auth, content-encoding class, method, content-type class, body class) combination + random; raw gRPC frames "
             "(malformed bodies, refused credentials, every outcome).  Every case runs the implementation and is compared "
             "with the Coq model (vm_compute); non-trivial = every case; distinct = distinct case terms.")
